@@ -4427,6 +4427,9 @@ def ps_rl_ll(ir, instr, dst, src, op, size):
             64: 0x3F}[size]
     mask = m2_expr.ExprInt(mask, dst.size)
 
+    # Only the low 64 bits of a xmm/m128 source hold the counter
+    if src.size > 64:
+        src = src[:64]
     # Saturate the counter to 2**size
     count = src.zeroExtend(dst.size)
     count = m2_expr.ExprCond(count & expr_simp(~mask),
